@@ -140,9 +140,9 @@ class CaseInsensitiveDict(MutableMapping):
     """
 
     def __init__(self, *args, **kwargs):
-        initial = dict(*args, **kwargs)
-        self._dict = dict((key.lower(), value) for key, value in initial.items())
-        self._keys = dict((key.lower(), key) for key in initial)
+        self._dict = dict()
+        self._keys = dict()
+        self.update(*args, **kwargs)
 
     def __len__(self):
         return len(self._dict)
@@ -309,9 +309,9 @@ class OrderedCaseInsensitiveDict(CaseInsensitiveDict):
     """
 
     def __init__(self, *args, **kwargs):
-        initial = OrderedDict(*args, **kwargs)
-        self._dict = dict((key.lower(), value) for key, value in initial.items())
-        self._keys = OrderedDict((key.lower(), key) for key in initial)
+        self._dict = dict()
+        self._keys = OrderedDict()
+        self.update(*args, **kwargs)
 
     def __repr__(self):
         return '{0}({1})'.format(
